@@ -88,6 +88,7 @@ func run(c *vf.Ctx) {
 	runStreamSeq(c, a, workers)
 	runDS(c, a)
 	runIfaceSpecial(c, a)
+	runReent(c)
 	c.SetExhaustive(false)
 	if n := c.Get("json_bytes_vary_with_map_order_observation"); n > 0 {
 		c.Note(fmt.Sprintf("observation only (the determinism clause is anchored in the binary encoder): JSONEncode/MapEncode of the same value gave different bytes after rebuilding its maps in %d cases - mapEncodeMap keeps Go's map iteration order in its insertion-ordered result", n))
@@ -129,6 +130,32 @@ func run(c *vf.Ctx) {
 		"ptr-to-time/map-value": 8, "ptr-to-time/toplevel": 25, "ptr-to-time/in-interface-impl": 50, "optional-bigint": 40} {
 		c.Require("shapes_with/"+cl, c.Pick(min, 10*min))
 	}
+	// disciplines (disc.go, reent.go)
+	c.Require("held_sequences", c.Pick(30000, 600000))
+	c.Require("held_redecodes", c.Pick(60000, 1200000))
+	c.Require("held_results_rechecked", c.Pick(60000, 1200000))
+	c.Require("held_redecodes_over_held_byte_slices", c.Pick(5000, 100000))
+	c.Require("held_template_destinations", c.Pick(10000, 200000))
+	c.Require("held_results_scribbled", c.Pick(2000, 40000))
+	c.Require("held_input_buffers_overwritten", c.Pick(60000, 1200000))
+	c.Require("held_encode_results_scribbled", c.Pick(30000, 600000))
+	c.Require("encode_arguments_scribbled", c.Pick(3000, 60000))
+	c.Require("reent_roundtrips", c.Pick(3000, 60000))
+	c.Require("reent_roundtrips_with_nested_user_code", c.Pick(2000, 40000))
+	c.Require("reent_max_user_code_nesting", 3)
+	c.Require("reent_concurrent_roundtrips", c.Pick(2400, 48000))
+	for _, k := range []string{"serializable-with-uint8-type", "serializable-with-uint32-type", "serializable-without-type", "plain-struct", "plain-struct-with-type", "itself-nested", "from-validator"} {
+		c.Require("reent_user_code/reentrant-encode/"+k, c.Pick(500, 10000))
+	}
+	for _, k := range []string{"serializable-with-uint8-type", "serializable-with-uint32-type", "itself-nested", "plain-struct"} {
+		c.Require("reent_user_code/reentrant-decode/"+k, c.Pick(500, 10000))
+	}
+	c.Require("reent_user_code/reentrant-json-roundtrip", c.Pick(500, 10000))
+	for _, k := range []string{"encode/error", "encode/panic", "decode/error", "decode/panic"} {
+		c.Require("reent_failing_user_code/"+k, c.Pick(150, 3000))
+	}
+	c.Require("reent_roundtrips_after_failing_user_code", c.Pick(1500, 30000))
+	c.Require("reent_failing_user_code_on_fresh_api", c.Pick(500, 10000))
 	c.Require("stream_cases", 300)
 	c.Require("stream_sequences", c.Pick(12000, 240000))
 	c.Require("stream_presized_buffer_cases", c.Pick(5000, 100000))
@@ -171,6 +198,14 @@ func replay(c *vf.Ctx) {
 		streamCase(st, r.Pair, r.Writer, r.Reader, r.PSeed)
 	case "ds":
 		dsCase(st, r.Pair, r.PSeed)
+	case "reent":
+		rAPI = newReentAPI()
+		rc := rCase{Seed: r.PSeed, Form: r.ShapeIdx, Val: r.Validation}
+		if sym, detail := rc.roundTrip(); sym != "" {
+			c.Violation("reent"+r.Pair+":"+sym+"@"+rFormNames[rc.Form], detail, r)
+		} else {
+			reentChild(c) // the case depends on what ran before it (failing user code, concurrency): re-run the part
+		}
 	case "iface-special":
 		demandIfaceSpecial = true
 		runIfaceSpecial(c, a)
@@ -192,6 +227,8 @@ func child(c *vf.Ctx) {
 		serixStaticChild(c)
 	case "serix-isolate":
 		serixIsolateChild(c)
+	case "reent":
+		reentChild(c)
 	}
 }
 
